@@ -12,7 +12,7 @@ from decimal import Decimal, getcontext
 import common as C
 
 ID = "C08"
-COQ_TARGETS = ["Properties/C08.vo"]
+COQ_TARGETS = ["Properties/C08.vo", "GenFacts/ProbSrcFacts.vo"]
 MODEL_TARGETS = ["Model/Prob.vo"]
 IMPORTS = "From Ka Require Import Model.Prob.\nOpen Scope string_scope.\nOpen Scope Q_scope.\n"
 
